@@ -13,8 +13,8 @@ use crate::refledger::{self as rl, Ann, Bal, Exp, Prec, State, P};
 pub const DEF: CheckDef = CheckDef {
     id: "C04",
     run,
-    technique: "exhaustive enumeration of all ledgers of up to 3-4 transactions over a 17-transaction alphabet (as histories, any file order) x precision contexts x ALL (start,end) date ranges; balance, range-recomputed balance and register are obtained from the real code and compared with each other and with the reference ledger's per-posting amounts",
-    rule: "case = (precision context, sequence of <= 4 (thorough 5) transactions from a 17-transaction alphabet with three dates, repeated dates, multi-commodity, cancelling, inferred, assigned, priced and sub-precision postings); inside a case all 36 (start,end) pairs over {none, d1-1, d1, d2, d3, d3+1} (incl. start=end and start>end) are queried, additivity is checked for every split point, and a slice of cases is also run through the CLI (balance/register on real files). states = distinct ledgers, transitions = balance/register queries compared",
+    technique: "exhaustive enumeration of all ledgers of up to 3-4 transactions over an 18-transaction alphabet (as histories, any file order) x precision contexts x ALL (start,end) date ranges; balance, range-recomputed balance and register are obtained from the real code and compared with each other and with the reference ledger's per-posting amounts",
+    rule: "case = (precision context, sequence of <= 4 (thorough 5) transactions from an 18-transaction alphabet with three dates (and, for <= 2 transactions, four more calendars placing the dates around 1970-01-01, a leap day, a year boundary and 1900), repeated dates, multi-commodity, cancelling, inferred, assigned, priced and sub-precision postings); inside a case all 36 (start,end) pairs over {none, d1-1, d1, d2, d3, d3+1} (incl. start=end and start>end) are queried, additivity is checked for every split point, and a slice of cases is also run through the CLI (balance/register on real files). states = distinct ledgers, transitions = balance/register queries compared",
     assumptions: &[
         "RefLedger gives the per-posting amounts; sums are exact rationals; a range report may be rounded to the declared precision (any midpoint rule accepted), the whole-history report may be raw",
         "three dates, accounts {P,Q,R}, commodities {X,Y}",
@@ -60,6 +60,8 @@ fn alphabet() -> Vec<T> {
         // assignments to zero of one commodity (the account must stop showing it) and of the whole account
         T { day: D2, ps: vec![P::assign("P", Bal::Val("0", "X")), P::omitted("Q")] },
         T { day: D3, ps: vec![P::assign("Q", Bal::Val("0", "Y")), P::omitted("R")] },
+        // the smallest unit of an 18-decimal commodity: a total of 1e-18 is not zero
+        T { day: D2, ps: vec![a("P", "0.000000000000000001", "Y"), a("Q", "-0.000000000000000001", "Y")] },
     ]
 }
 
@@ -67,9 +69,9 @@ fn render(prec: &Prec, seq: &[&T]) -> String {
     let mut s = rl::prec_header(prec);
     for (i, t) in seq.iter().enumerate() {
         if t.day == WITH_EFFECTIVE_DATE {
-            s.push_str(&format!("2024/01/{:02}=2024/01/{:02} t{}\n", t.day, EFF, i));
+            s.push_str(&format!("{}={} t{}\n", day(t.day).format("%Y/%m/%d"), day(EFF).format("%Y/%m/%d"), i));
         } else {
-            s.push_str(&format!("2024/01/{:02} t{}\n", t.day, i));
+            s.push_str(&format!("{} t{}\n", day(t.day).format("%Y/%m/%d"), i));
         }
         for p in &t.ps {
             s.push_str(&p.render(p.acct));
@@ -80,8 +82,13 @@ fn render(prec: &Prec, seq: &[&T]) -> String {
     s
 }
 
+thread_local! {
+    /// calendar: day number d stands for BASE + (d - 1) days (default 2024/01/01, so d is the day of January 2024)
+    static BASE: std::cell::Cell<(i32, u32, u32)> = const { std::cell::Cell::new((2024, 1, 1)) };
+}
 fn day(d: u32) -> NaiveDate {
-    oka::date(2024, 1, d)
+    let (y, m, dd) = BASE.with(|b| b.get());
+    oka::date(y, m, dd) + chrono::Duration::days(d as i64 - 1)
 }
 
 fn bounds() -> Vec<Option<u32>> {
@@ -315,7 +322,7 @@ fn cli_pass(text: &str, whole: &Balances, queries: &mut u64) -> Option<Outcome> 
     for s in &some_bounds {
         for e in &some_bounds {
             *queries += 1;
-            let (ss, es) = (format!("2024-01-{:02}", s), format!("2024-01-{:02}", e));
+            let (ss, es) = (day(*s).format("%Y-%m-%d").to_string(), day(*e).format("%Y-%m-%d").to_string());
             let out = match run_cli(&["okane", "balance", "--start", &ss, "--end", &es, &p]) {
                 Ok(o) => o,
                 Err(er) => return Some(Outcome::violation("cli-range-balance-failed", format!("--start {} --end {}: {}", ss, es, er))),
@@ -408,6 +415,51 @@ fn run(ctx: &mut Ctx) {
                 ctx.count("transitions", q);
                 ctx.count("validated", q);
                 ctx.count("states", 1);
+            }
+        }
+    }
+    // other calendars: the same ledgers of <= 2 transactions with day d standing for BASE + (d - 1) days, so that the
+    // bounds {d1-1, d1, d2, d3, d3+1} fall around 1 January 1970 (day 21), around 29 February 2024, around a year
+    // boundary, and in 1899/1900. Every bound pair, additivity, register and (for a slice) the command line as before.
+    for (cal, base) in [("epoch", (1969, 12, 12)), ("leap-day", (2024, 2, 9)), ("year-boundary", (2023, 12, 12)), ("1899", (1899, 12, 12))] {
+        for prec in &precs {
+            for len in 1..=2usize {
+                let total = (n as u64).pow(len as u32);
+                for k in 0..total {
+                    counter += 1;
+                    if !ctx.next_is_mine() {
+                        ctx.skip_cases(1);
+                        continue;
+                    }
+                    let mut idx = vec![];
+                    let mut x = k;
+                    for _ in 0..len {
+                        idx.push((x % n as u64) as usize);
+                        x /= n as u64;
+                    }
+                    let seq: Vec<&T> = idx.iter().map(|i| &alpha[*i]).collect();
+                    BASE.with(|b| b.set(base));
+                    let text = render(prec, &seq);
+                    let with_cli = counter % 7 == 0;
+                    let mut q = 0u64;
+                    ctx.case(
+                        || format!("[calendar {}]\n{}", cal, text),
+                        || {
+                            BASE.with(|b| b.set(base));
+                            let o = judge(prec, &seq, &text, with_cli, &mut q);
+                            BASE.with(|b| b.set((2024, 1, 1)));
+                            match o.verdict {
+                                crate::fw::Verdict::Pass => Outcome::pass(format!("calendar-{}/{}", cal, o.class)),
+                                crate::fw::Verdict::Violation { sig, detail } => Outcome::violation(format!("{}/calendar-{}", sig, cal), detail),
+                                _ => o,
+                            }
+                        },
+                    );
+                    BASE.with(|b| b.set((2024, 1, 1)));
+                    ctx.count("transitions", q);
+                    ctx.count("validated", q);
+                    ctx.count("states", 1);
+                }
             }
         }
     }
